@@ -245,7 +245,11 @@ impl<'a> Token<'a> {
         match self.num_parts() {
             0 => unreachable!(),
             1 => Err(ParsingError::missing_param(self, "repeat.<num_repetitions>")),
-            2 => parse_param_with_constant_lookup::<u32>(self, 1, constants),
+            2 => match parse_param_with_constant_lookup::<u32>(self, 1, constants)? {
+                // the number of repetitions must be greater than zero
+                0 => Err(ParsingError::invalid_param(self, 1)),
+                times => Ok(times),
+            },
             _ => Err(ParsingError::extra_param(self)),
         }
     }
